@@ -10,6 +10,7 @@
 #include "common.hpp"
 
 #include "libphysica/Numerics.hpp"
+#include <memory>
 
 using namespace libphysica;
 
@@ -35,6 +36,12 @@ static Op read_op(Args& a, bool twod)
 		}
 		else if(o.t == "P" || o.t == "X")
 			o.a = a.dbl();
+		else if(o.t == "Z")
+		{
+			o.k = a.u64();
+			o.a = a.dbl();
+			o.b = a.dbl();
+		}
 		else if(o.t != "gm" && o.t != "gM" && o.t != "C")
 			throw BadArgs("op2 " + o.t);
 		return o;
@@ -102,11 +109,12 @@ std::string handle(const std::string& op, Args& a)
 	if(op == "c09.hist")
 	{
 		auto xs = a.dbls(), ys = a.dbls();
+		double xd = a.dbl(), fd = a.dbl();
 		auto h = read_ops(a, false), q = read_ops(a, false);
 		a.end();
 		return run_forked([&](Out& o) {
-			Interpolation obj(xs, ys);
-			const Interpolation pristine(xs, ys);
+			Interpolation obj(xs, ys, xd, fd);
+			const Interpolation pristine(xs, ys, xd, fd);
 			double p   = 1.0;
 			bool p_set = false;
 			struct Saved
@@ -118,7 +126,7 @@ std::string handle(const std::string& op, Args& a)
 			std::vector<Saved> saved;
 			size_t step = 0;
 			auto fresh	= [&](double pp, bool set, bool construct) {
-				 Interpolation f = (construct || xs.size() <= 64 || step % 16 == 0) ? Interpolation(xs, ys) : Interpolation(pristine);
+				 Interpolation f = (construct || xs.size() <= 64 || step % 16 == 0) ? Interpolation(xs, ys, xd, fd) : Interpolation(pristine);
 				 if(set)
 					 f.Set_Prefactor(pp);
 				 return f;
@@ -198,10 +206,22 @@ std::string handle(const std::string& op, Args& a)
 		std::vector<std::vector<double>> f(rows);
 		for(auto& r : f)
 			r = a.dbls();
+		double xd = a.dbl(), yd = a.dbl(), fd = a.dbl();
 		auto h = read_ops(a, true), q = read_ops(a, true);
 		a.end();
+		// another table of the same shape (abscissae compressed towards the first one), used to overwrite the source of copies
+		auto squeeze = [](const std::vector<double>& v) {
+			std::vector<double> r(v);
+			for(size_t i = 1; i < r.size(); i++)
+			{
+				r[i] = v[0] + 0.4375 * (v[i] - v[0]);
+				if(!(r[i] > r[i - 1]))
+					r[i] = std::nextafter(r[i - 1], INFINITY);
+			}
+			return r;
+		};
 		return run_forked([&](Out& o) {
-			Interpolation_2D obj(xs, ys, f);
+			std::unique_ptr<Interpolation_2D> objp(new Interpolation_2D(xs, ys, f, xd, yd, fd));
 			double p   = 1.0;
 			bool p_set = false;
 			struct Saved
@@ -212,7 +232,7 @@ std::string handle(const std::string& op, Args& a)
 			};
 			std::vector<Saved> saved;
 			auto fresh = [&](double pp, bool set) {
-				Interpolation_2D g(xs, ys, f);
+				Interpolation_2D g(xs, ys, f, xd, yd, fd);
 				if(set)
 					g.Set_Prefactor(pp);
 				return g;
@@ -221,14 +241,14 @@ std::string handle(const std::string& op, Args& a)
 			{
 				if(c.t == "P")
 				{
-					obj.Set_Prefactor(c.a);
+					objp->Set_Prefactor(c.a);
 					p	  = c.a;
 					p_set = true;
 					o << "U";
 				}
 				else if(c.t == "X")
 				{
-					obj.Multiply(c.a);
+					objp->Multiply(c.a);
 					p *= c.a;
 					p_set = true;
 					o << "U";
@@ -236,15 +256,45 @@ std::string handle(const std::string& op, Args& a)
 				else if(c.t == "C")
 				{
 					if(saved.size() < 6)
-						saved.push_back(Saved {Interpolation_2D(obj), p, p_set});
-					Interpolation_2D tmp(obj);
-					obj = tmp;
+						saved.push_back(Saved {Interpolation_2D(*objp), p, p_set});
+					Interpolation_2D tmp(*objp);
+					*objp = tmp;
 					o << "U";
+				}
+				else if(c.t == "Z")
+				{
+					// copies are queried while their source is overwritten in place by another table (k = 0) or destroyed (k = 1)
+					Op qi;
+					qi.t = "I";
+					qi.a = c.a;
+					qi.b = c.b;
+					double vu, vf;
+					{
+						Interpolation_2D g = fresh(p, p_set);
+						vu				   = query2(*objp, qi);
+						vf				   = query2(g, qi);
+					}
+					if(c.k == 0)
+					{
+						Interpolation_2D other(squeeze(xs), squeeze(ys), f, xd, yd, fd);
+						*objp = other;
+					}
+					else
+						objp.reset();
+					o << "F" << (long long) (2 + 2 * saved.size()) << vu << vf;
+					for(auto& sv : saved)
+					{
+						Interpolation_2D gs = fresh(sv.p, sv.p_set);
+						o << query2(sv.f, qi) << query2(gs, qi);
+					}
+					objp.reset(new Interpolation_2D(xs, ys, f, xd, yd, fd));
+					if(p_set)
+						objp->Set_Prefactor(p);
 				}
 				else
 				{
 					Interpolation_2D g = fresh(p, p_set);
-					double vu		   = query2(obj, c);
+					double vu		   = query2(*objp, c);
 					double vf		   = query2(g, c);
 					o << "V" << vu << vf;
 				}
@@ -252,11 +302,146 @@ std::string handle(const std::string& op, Args& a)
 			for(const Op& c : q)
 			{
 				Interpolation_2D g = fresh(p, p_set);
-				o << "F" << (long long) (2 + 2 * saved.size()) << query2(obj, c) << query2(g, c);
+				o << "F" << (long long) (2 + 2 * saved.size()) << query2(*objp, c) << query2(g, c);
 				for(auto& s : saved)
 				{
 					Interpolation_2D gs = fresh(s.p, s.p_set);
 					o << query2(s.f, c) << query2(gs, c);
+				}
+			}
+		});
+	}
+	if(op == "c09.pool")
+	{
+		size_t nt = a.u64();
+		std::vector<std::pair<std::vector<double>, std::vector<double>>> tb(nt);
+		for(auto& t : tb)
+		{
+			t.first	 = a.dbls();
+			t.second = a.dbls();
+		}
+		size_t ns  = a.u64();
+		size_t nop = a.u64();
+		struct POp
+		{
+			std::string t;
+			size_t i = 0, j = 0;
+			Op q;
+		};
+		std::vector<POp> ops(nop);
+		for(auto& c : ops)
+		{
+			c.t = a.tok();
+			if(c.t == "N" || c.t == "K" || c.t == "A")
+			{
+				c.i = a.u64();
+				c.j = a.u64();
+			}
+			else if(c.t == "X")
+				c.i = a.u64();
+			else if(c.t == "Q")
+			{
+				c.i = a.u64();
+				c.q = read_op(a, false);
+			}
+			else
+				throw BadArgs("pop " + c.t);
+		}
+		a.end();
+		return run_forked([&](Out& o) {
+			struct Info
+			{
+				size_t table = 0;
+				double p	 = 1.0;
+				bool p_set	 = false;
+			};
+			std::vector<std::unique_ptr<Interpolation>> slot(ns), keep;
+			std::vector<Info> info(ns);
+			auto live = [&](size_t k) {
+				if(k >= ns || !slot[k])
+					throw BadArgs("dead slot");
+			};
+			for(const POp& c : ops)
+			{
+				if(c.t == "N")
+				{
+					if(c.i >= ns || c.j >= nt)
+						throw BadArgs("slot/table");
+					if(slot[c.i])
+					{
+						// a named, longer-lived object: copy assignment, buffers reused in place (its destruction is the business of op X)
+						keep.emplace_back(new Interpolation(tb[c.j].first, tb[c.j].second));
+						*slot[c.i] = *keep.back();
+					}
+					else
+						slot[c.i].reset(new Interpolation(tb[c.j].first, tb[c.j].second));
+					info[c.i] = Info {c.j, 1.0, false};
+					o << "U";
+				}
+				else if(c.t == "K")
+				{
+					live(c.i);
+					if(c.j >= ns)
+						throw BadArgs("slot");
+					slot[c.j].reset(new Interpolation(*slot[c.i]));
+					info[c.j] = info[c.i];
+					o << "U";
+				}
+				else if(c.t == "A")
+				{
+					live(c.i);
+					live(c.j);
+					*slot[c.j] = *slot[c.i];
+					info[c.j]  = info[c.i];
+					o << "U";
+				}
+				else if(c.t == "X")
+				{
+					if(c.i >= ns)
+						throw BadArgs("slot");
+					slot[c.i].reset();
+					o << "U";
+				}
+				else
+				{
+					live(c.i);
+					Interpolation& f = *slot[c.i];
+					Info& in		 = info[c.i];
+					const Op& q		 = c.q;
+					if(q.t == "P")
+					{
+						f.Set_Prefactor(q.a);
+						in.p	 = q.a;
+						in.p_set = true;
+						o << "U";
+					}
+					else if(q.t == "X")
+					{
+						f.Multiply(q.a);
+						in.p *= q.a;
+						in.p_set = true;
+						o << "U";
+					}
+					else if(q.t == "C")
+						o << "U";
+					else
+					{
+						Interpolation g(tb[in.table].first, tb[in.table].second);
+						if(in.p_set)
+							g.Set_Prefactor(in.p);
+						if(q.t == "L")
+						{
+							unsigned ju = f.Locate(q.a);
+							unsigned jf = g.Locate(q.a);
+							o << "L" << ju << jf;
+						}
+						else
+						{
+							double vu = query(f, q);
+							double vf = query(g, q);
+							o << "V" << vu << vf;
+						}
+					}
 				}
 			}
 		});
